@@ -28,6 +28,9 @@ mod copy_future;
 mod multiaddr_ext;
 mod priv_client;
 mod protocol;
+#[cfg(libp2p_verif)]
+#[doc(hidden)]
+pub mod verif_proto_a;
 
 mod proto {
     #![allow(unreachable_pub)]
